@@ -33,7 +33,8 @@ class Contract:
     def __init__(self, file, qualname, params, requires=None, ensures=None, raises=None, loops=None,
                  modifies=None, make_result=None, calls=None, consts=None, local_sorts=None, call_names=(),
                  static=False, with_handler=None, setup=None, on_yield=None, notes="", ghost=None,
-                 exc_ensures=None, receiver_from_call=False, lemma_facts=None, harness=None, returns=None):
+                 exc_ensures=None, receiver_from_call=False, lemma_facts=None, harness=None, returns=None, constructor=False,
+                 variant=None, new_obj=None, init_obj=None):
         self.file, self.qualname, self.params = file, qualname, params
         self.requires, self.ensures, self.raises = requires, ensures, raises or {}
         self.loops = loops or {}
@@ -53,6 +54,10 @@ class Contract:
         self.lemma_facts = lemma_facts  # lambda S, a: [(lemma name, instance formula)] assumed at entry
         self.harness = harness
         self.known_regions = {}
+        self.constructor = constructor
+        self.variant = variant
+        self.new_obj = new_obj      # ObjT of the object a constructor call returns (callers' view)
+        self.init_obj = init_obj    # lambda eng, st, bound, ref: st  - attributes that ARE the arguments
         if returns is not None and make_result is None:
             def _mk(eng, st, bound, _spec=returns):
                 return make_symbolic(eng, eng.new_base("ret:" + qualname), _spec, st, set())
@@ -60,7 +65,7 @@ class Contract:
 
     @property
     def key(self):
-        return f"{self.file}:{self.qualname}"
+        return f"{self.file}:{self.qualname}" + (f"[{self.variant}]" if self.variant else "")
 
 
 class Registry:
@@ -128,6 +133,11 @@ def make_symbolic(eng, name, spec, st, assumptions):
         return tuple(vals), st
     if isinstance(spec, ObjT):
         cell = {"#cls": spec.cls, "#decl": {}}
+        model = getattr(spec, "model", None)
+        if model is not None:
+            cell["#props"], cell["#setters"], cell["#methods"] = model.props, model.setters, model.methods
+            if model.len_handler is not None:
+                cell["#len"] = model.len_handler
         for a, sp in spec.attrs.items():
             if a.startswith("#"):
                 cell[a] = sp
@@ -222,7 +232,7 @@ def generate(contract, registry=REG, finite=None, grid=None):
             if cond is None:
                 eng.oblige("exceptional", f"unexpected raise {exc.cls}", s, z3.BoolVal(False))
             else:
-                ens = Namespace(**{k: eng.resolve(v, entry.heap) for k, v in entry.env.items()})
+                ens = Namespace({k: eng.resolve(v, entry.heap) for k, v in entry.env.items()})
                 ens.__dict__["old"] = ens
                 ens.__dict__["arg"] = ens
                 eng.oblige("exceptional", f"raise {exc.cls} only when allowed", s, S.b(cond(S, ens)))
